@@ -320,15 +320,17 @@ def job_cli(job):
         seq = list(RSEQ[a["pos"]:a["pos"] + 10])
         seq[SITE - a["pos"]] = rd1[i]["seq"][SITE - (10 + 2 * (i % 3))]
         a["seq"] = "".join(seq)
-    p1 = synth.write_bam(os.path.join(str(d), "S1.bam"), [("rg1", "S1")], rd1)
+    # sample names whose lexicographic order is the reverse of the argument order: depths must follow the *names* in the header
+    N1, N2 = "Sz", "Sa"
+    p1 = synth.write_bam(os.path.join(str(d), "S1.bam"), [("rg1", N1)], rd1)
     rd2 = [dict(a, name="t%d" % i, rg="rg2") for i, a in enumerate(rd1[:6])]
-    p2 = synth.write_bam(os.path.join(str(d), "S2.bam"), [("rg2", "S2")], rd2)
+    p2 = synth.write_bam(os.path.join(str(d), "S2.bam"), [("rg2", N2)], rd2)
     bed = synth.write_bed(str(d), [(CONTIG, SITE - 2, SITE + 3, "t")], "t.bed")
-    for mq in (0, 20):
+    for mq, bam_order in ((0, (p1, p2)), (20, (p1, p2)), (0, (p2, p1))):
         for kd in (False, True):
             for kq in (False, True):
                 for ks in (False, True):
-                    argv = ["mchap", "find-snvs", "--bam", p1, p2, "--reference", fa, "--targets", bed, "--mapping-quality", str(mq), "--ind-maf", "0.01", "--ind-mad", "1"]
+                    argv = ["mchap", "find-snvs", "--bam"] + list(bam_order) + ["--reference", fa, "--targets", bed, "--mapping-quality", str(mq), "--ind-maf", "0.01", "--ind-mad", "1"]
                     argv += (["--keep-duplicate-reads"] if kd else []) + (["--keep-qcfail-reads"] if kq else []) + (["--keep-supplementary-reads"] if ks else [])
                     buf = io.StringIO()
                     r.evaluations += 1
@@ -341,9 +343,15 @@ def job_cli(job):
                         continue
                     env.quiet()
                     recs = [l.split("\t") for l in buf.getvalue().splitlines() if l and not l.startswith("#")]
+                    hdr = [l.split("\t") for l in buf.getvalue().splitlines() if l.startswith("#CHROM")]
+                    cols = hdr[0][9:] if hdr else []
+                    arg_names = [N1, N2] if bam_order[0] == p1 else [N2, N1]
+                    if cols != arg_names:
+                        r.violation("cli-columns", "header sample columns %r, --bam order gives %r" % (cols, arg_names), payload)
+                        continue
                     site = [f for f in recs if int(f[1]) == SITE + 1]
                     want = {}
-                    for s, reads in (("S1", rd1), ("S2", rd2)):
+                    for s, reads in ((N1, rd1), (N2, rd2)):
                         c = {b: 0 for b in BASES}
                         for a in reads:
                             if counted(a, mq, not kd, not kq, not ks):
@@ -354,7 +362,7 @@ def job_cli(job):
                         continue
                     f = site[0]
                     alleles = [f[3]] + ([] if f[4] in (".", "") else f[4].split(","))
-                    for k, s in enumerate(("S1", "S2")):
+                    for k, s in enumerate(cols):
                         ad = [int(x) for x in f[9 + k].split(":")[1].split(",")]
                         got = dict(zip(alleles, ad))
                         exp = {b: want[s][b] for b in alleles}
